@@ -76,10 +76,10 @@ def run(ctx):
 
     # ------------------------------------------------------------------ (a) simple back-ends
     from radicale import pathutils, rights as rights_mod
-    users = list(dict.fromkeys(list(small_strings(ALPHA, ctx.n(3, 4))) + SPECIAL_USERS))
-    raw_paths = list(small_strings(ALPHA, ctx.n(5, 6))) + SPECIAL_PATHS
+    users = list(dict.fromkeys(list(small_strings(["a", "b", "/"], ctx.n(3, 4))) + [".", "..", "a.", ".a"] + SPECIAL_USERS))
+    raw_paths = list(small_strings(ALPHA, ctx.n(4, 6))) + SPECIAL_PATHS
     paths = list(dict.fromkeys(pathutils.sanitize_path(p) for p in raw_paths))
-    for _ in range(ctx.n(150, 2000)):
+    for _ in range(ctx.n(60, 2000)):
         comps = [ctx.rng.choice(users[1:] + ["cal", "x.ics"]) for _ in range(ctx.rng.randint(0, 4))]
         paths.append(pathutils.sanitize_path("/" + "/".join(comps) + ctx.rng.choice(["", "/"])))
     paths = list(dict.fromkeys(paths))
@@ -87,8 +87,8 @@ def run(ctx):
     backends = {False: simple_backends("none"), True: simple_backends("htpasswd")}
     for verify, bk in backends.items():
         for kind in SIMPLE:
-            if bk[kind]._verify_user != verify:
-                ctx.obligation("glue:_verify_user(%s,%s)" % (kind, verify), False, "auth type does not set _verify_user as documented")
+            ctx.obligation("glue:_verify_user(%s, auth %s)" % (kind, "enabled" if verify else "none"), bk[kind]._verify_user == verify,
+                           "Rights.__init__ does not derive _verify_user from the auth type as modelled")
             for u in users:
                 for p in paths:
                     got = bk[kind].authorization(u, p)
@@ -113,11 +113,8 @@ def run(ctx):
                             violation("simple-write", "owner_write grants %r to %r outside the own home: %r" % (got, u, p),
                                       dict(backend=kind, verify=verify, user=u, path=p))
     ctx.count("cases:simple", len(cases_a))
-    fn_a = ("(fun c => match c with (k, v, u, p) => match k with 0 => RightsGen.authorization_authenticated v u p "
-            "| 1 => RightsGen.authorization_owner_only v u p | _ => RightsGen.authorization_owner_write v u p end end)")
-    codes = X.classify_cases(ctx, "c04_simple", fn_a, "cls_str", cases_a,
-                             lambda c: "(%d, %s, %s, %s)" % (SIMPLE.index(c[0]), enc_bool(c[1]), enc_str(c[2]), enc_str(c[3])),
-                             enc_str, shard=2500, header=X.HEADER + "Require RV.Gen.RightsGen.\n")
+    ctx.log("simple back-ends: %d cases on the implementation" % len(cases_a))
+    codes = product_cases(ctx, users, paths, cases_a)
     record(ctx, "simple", cases_a, codes)
     ctx.samples.append(dict(kind="simple", backend="owner_only", user="tmp", path="/tmp2/", result=backends[True]["owner_only"].authorization("tmp", "/tmp2/")))
 
@@ -149,9 +146,11 @@ def run(ctx):
         text = X.render_rules([{k: v for k, v in s.items() if not k.startswith("_")} for s in secs])
         ro = impl.load(text)
         for u in users:
-            if "\n" in u:
+            # '.' excludes "\n"; the request handler refuses user names that are not a safe path component
+            # (app/__init__.py: "Refused unsafe username") before any rights back-end is asked
+            if "\n" in u or (u and not pathutils.is_safe_path_component(u)):
                 continue
-            for p in paths[:ctx.n(400, 4000)]:
+            for p in paths[:ctx.n(160, 4000)]:
                 n_ex += 1
                 a, _ = X.py_authorization(ro, u, p)
                 b = backends[True][kind].authorization(u, p)
@@ -159,12 +158,14 @@ def run(ctx):
                     violation("example-rules", "example rules for %s in /repo/rights give %r, the plugin gives %r (user %r, path %r)" % (kind, a, b, u, p),
                               dict(backend=kind, rules=secs, user=u, path=p, from_file=a, plugin=b))
     ctx.count("cases:example-rules", n_ex)
+    ctx.log("example rules: %d" % n_ex)
     ctx.evaluations += n_ex
 
     # ------------------------------------------------------------------ (b) regex / escape / format
     pairs = X.regex_cases(ctx.rng, ctx.n(20000, 200000))
     exps = X.py_fullmatch_many(pairs)
     cases_b = [(ps, e) for ps, e in zip(pairs, exps) if e != "SKIP"]
+    ctx.log("regex: %d pairs evaluated by Python" % len(cases_b))
     ctx.count("regex:skipped-python-timeout", len(pairs) - len(cases_b))
     for (p, s), e in cases_b:
         ctx.case(("re", p, s), nontrivial=any(c in p for c in "()[]{}*+?|\\."))
@@ -174,6 +175,7 @@ def run(ctx):
     record(ctx, "regex", cases_b, codes)
     ctx.samples.append(dict(kind="regex", pattern="(a*)*", subject="aa", python=repr(X.py_fullmatch("(a*)*", "aa"))))
 
+    ctx.log("regex correspondence done")
     esc = [chr(i) for i in range(0, 130)] + X.USERS + X.COMPONENTS + ["".join(ctx.rng.choice(X.SUBJECT_ALPHA + X.META) for _ in range(ctx.rng.randint(0, 8)))
                                                                         for _ in range(ctx.n(400, 4000))]
     cases_e = [(s, re.escape(s)) for s in esc]
@@ -230,6 +232,7 @@ def run(ctx):
                     if o != v:
                         violation("from_file-oracle", "from_file returns %r for user %r path %r; first full match with literal substitution "
                                   "gives %r (rules %r)" % (v, user, path, o, rules), dict(rules=rules, user=user, path=path, got=v, oracle=o))
+        ctx.log("%s: %d cases on the implementation" % (tag, len(cases_c)))
         for k, v in kinds.items():
             ctx.count("from_file:exc:" + k, v)
         ctx.count("from_file:oracle-checked", oracle_n)
@@ -240,6 +243,38 @@ def run(ctx):
             (rules, user, path), v = next((c for c in cases_c if c[1] not in ("", "ERR")), cases_c[0])
             ctx.samples.append(dict(kind=tag, rules=rules, user=user, path=path, result=v))
     ctx.extra["monitor_failures"] = dict(mon_fail)
+
+
+def product_cases(ctx, users, paths, cases):
+    """The simple back-ends on the full product users x paths, evaluated inside Coq: one file per
+    (back-end, verify) sharing the user and path tables; `cases` is in the order of the nested loops
+    verify / back-end / user / path.  Returns the list of codes (0 agree, 1 differ)."""
+    tables = ("Require RV.Gen.RightsGen.\nDefinition users_ := [%s].\nDefinition paths_ := [%s].\n" % (
+        ";\n".join(enc_str(u) for u in users), ";\n".join(enc_str(p) for p in paths)))
+    per = len(users) * len(paths)
+    files, order = {}, []
+    for bi, ((kind, verify, _, _), _) in enumerate(cases[::per]):
+        chunk = cases[bi * per:(bi + 1) * per]
+        fn = {"authenticated": "RightsGen.authorization_authenticated", "owner_only": "RightsGen.authorization_owner_only",
+              "owner_write": "RightsGen.authorization_owner_write"}[kind]
+        body = (X.HEADER + tables + "Definition expected_ := [%s].\n" % ";".join(enc_str(o) for _, o in chunk) +
+                "Definition got_ := flat_map (fun u => map (fun p => %s %s u p) paths_) users_.\n" % (fn, enc_bool(verify)) +
+                "Fixpoint cmp_ (a b : list pystr) : list N := match a, b with x :: a', y :: b' => cls_str x y :: cmp_ a' b' "
+                "| [], [] => [] | _, _ => [1] end.\nEval vm_compute in (cmp_ expected_ got_).\n")
+        name = "c04_simple_%d" % bi
+        files[name] = body
+        order.append((name, len(chunk)))
+    res = ctx.coq_eval_many(files)
+    codes = []
+    for name, n in order:
+        rc, out = res[name]
+        m = re.search(r"=\s*\[?(.*?)\]?\s*:\s*list N", out, re.S)
+        got = [int(x) for x in re.findall(r"\d+", m.group(1))] if (rc == 0 and m) else None
+        if got is None or len(got) != n:
+            ctx.obligation("correspondence:simple:model-evaluates", False, out[-1500:])
+            return None
+        codes += got
+    return codes
 
 
 def _user_matches(sec, user):
